@@ -5,6 +5,7 @@
 use std::{collections::HashMap, rc::Rc};
 
 use crate::{
+    choice::Choice,
     choice_point::ChoicePoint,
     container::Container,
     control_command::ControlCommand,
@@ -27,7 +28,25 @@ use crate::{
     void::Void,
 };
 
-use super::json_tokenizer::{JsonTokenizer, JsonValue};
+use super::json_tokenizer::{JsonTokenizer, JsonValue, Number};
+
+fn bad_json(what: &str) -> StoryError {
+    StoryError::BadJson(format!("Unexpected value for {what}"))
+}
+
+fn expect_str<'a>(v: &'a JsonValue, what: &str) -> Result<&'a str, StoryError> {
+    v.as_str().ok_or_else(|| bad_json(what))
+}
+
+fn expect_i32(v: &JsonValue, what: &str) -> Result<i32, StoryError> {
+    v.as_integer().ok_or_else(|| bad_json(what))
+}
+
+fn expect_usize(v: &JsonValue, what: &str) -> Result<usize, StoryError> {
+    v.as_integer()
+        .and_then(|n| usize::try_from(n).ok())
+        .ok_or_else(|| bad_json(what))
+}
 
 pub fn load_from_string(
     s: &str,
@@ -50,7 +69,15 @@ fn parse(
         ));
     }
 
-    let version: i32 = tok.read_number().unwrap().as_integer().unwrap();
+    let version: i32 = match tok.read_value()? {
+        JsonValue::Number(n) => n.as_integer().ok_or_else(|| bad_json("inkVersion"))?,
+        _ => {
+            return Err(StoryError::BadJson(
+                "ink version number not found. Are you sure it's a valid .ink.json file?"
+                    .to_owned(),
+            ));
+        }
+    };
 
     if version > INK_VERSION_CURRENT {
         return Err(StoryError::BadJson(
@@ -106,6 +133,7 @@ fn parse(
     let list_defs = Rc::new(jtoken_to_list_definitions(tok)?);
 
     tok.expect('}')?;
+    tok.expect_end()?;
 
     Ok((version, main_content_container, list_defs))
 }
@@ -127,20 +155,20 @@ fn jtoken_to_runtime_object(
     match value {
         JsonValue::Null => Ok(ArrayElement::NullElement),
         JsonValue::Boolean(value) => Ok(ArrayElement::RTObject(Rc::new(Value::new::<bool>(value)))),
-        JsonValue::Number(value) => {
-            if value.is_integer() {
-                let val: i32 = value.as_integer().unwrap();
-                Ok(ArrayElement::RTObject(Rc::new(Value::new::<i32>(val))))
-            } else {
-                let val: f32 = value.as_float().unwrap();
-                Ok(ArrayElement::RTObject(Rc::new(Value::new::<f32>(val))))
-            }
+        JsonValue::Number(Number::Int(val)) => {
+            Ok(ArrayElement::RTObject(Rc::new(Value::new::<i32>(val))))
+        }
+        JsonValue::Number(Number::Float(val)) => {
+            Ok(ArrayElement::RTObject(Rc::new(Value::new::<f32>(val))))
         }
         JsonValue::String(value) => {
             let str = value.as_str();
 
             // String value
-            let first_char = str.chars().next().unwrap();
+            let first_char = match str.chars().next() {
+                Some(c) => c,
+                None => return Err(bad_json("a content string (empty)")),
+            };
             if first_char == '^' {
                 return Ok(ArrayElement::RTObject(Rc::new(Value::new::<&str>(
                     &str[1..],
@@ -182,6 +210,12 @@ fn jtoken_to_runtime_object(
         }
         JsonValue::Array => Ok(ArrayElement::RTObject(jarray_to_container(tok, name)?)),
         JsonValue::Object => {
+            // An empty object can only be the last element of a container
+            if tok.peek()? == '}' {
+                tok.expect('}')?;
+                return Ok(ArrayElement::LastElement(0, None, HashMap::new()));
+            }
+
             let prop = tok.read_obj_key()?;
             let prop_value = tok.read_value()?;
 
@@ -195,13 +229,13 @@ fn jtoken_to_runtime_object(
 
             // // VariablePointerValue
             if prop == "^var" {
-                let variable_name = prop_value.as_str().unwrap();
+                let variable_name = expect_str(&prop_value, "^var")?;
                 let mut contex_index = -1;
 
                 if tok.peek()? == ',' {
                     tok.expect(',')?;
                     tok.expect_obj_key("ci")?;
-                    contex_index = tok.read_number().unwrap().as_integer().unwrap();
+                    contex_index = expect_i32(&tok.read_value()?, "ci")?;
                 }
 
                 let var_ptr = Rc::new(Value::new_variable_pointer(variable_name, contex_index));
@@ -233,7 +267,7 @@ fn jtoken_to_runtime_object(
             }
 
             if is_divert {
-                let target = prop_value.as_str().unwrap().to_string();
+                let target = expect_str(&prop_value, "a divert target")?.to_string();
 
                 let mut var_divert_name: Option<String> = None;
                 let mut target_path: Option<String> = None;
@@ -251,8 +285,8 @@ fn jtoken_to_runtime_object(
                         var_divert_name = Some(target.clone());
                     } else if prop == "c" {
                         conditional = true;
-                    } else if prop == "exArgs" {
-                        external_args = prop_value.as_integer().unwrap() as usize;
+                    } else if prop == "exArgs" && external {
+                        external_args = expect_usize(&prop_value, "exArgs")?;
                     }
                 }
 
@@ -275,12 +309,12 @@ fn jtoken_to_runtime_object(
             // Choice
             if prop == "*" {
                 let mut flags = 0;
-                let path_string_on_choice = prop_value.as_str().unwrap();
+                let path_string_on_choice = expect_str(&prop_value, "a choice point path")?;
 
                 if tok.peek()? == ',' {
                     tok.expect(',')?;
                     tok.expect_obj_key("flg")?;
-                    flags = tok.read_number().unwrap().as_integer().unwrap();
+                    flags = expect_usize(&tok.read_value()?, "flg")? as i32;
                 }
 
                 tok.expect('}')?;
@@ -294,14 +328,14 @@ fn jtoken_to_runtime_object(
             if prop == "VAR?" {
                 tok.expect('}')?;
                 return Ok(ArrayElement::RTObject(Rc::new(VariableReference::new(
-                    prop_value.as_str().unwrap(),
+                    expect_str(&prop_value, "VAR?")?,
                 ))));
             }
 
             if prop == "CNT?" {
                 tok.expect('}')?;
                 return Ok(ArrayElement::RTObject(Rc::new(
-                    VariableReference::from_path_for_count(prop_value.as_str().unwrap()),
+                    VariableReference::from_path_for_count(expect_str(&prop_value, "CNT?")?),
                 )));
             }
 
@@ -318,13 +352,13 @@ fn jtoken_to_runtime_object(
             }
 
             if is_var_ass {
-                let var_name = prop_value.as_str().unwrap();
+                let var_name = expect_str(&prop_value, "a variable name")?;
                 let mut is_new_decl = true;
 
                 if tok.peek()? == ',' {
                     tok.expect(',')?;
                     tok.expect_obj_key("re")?;
-                    let _ = tok.read_boolean()?;
+                    let _ = tok.read_value()?;
                     is_new_decl = false;
                 }
 
@@ -340,13 +374,14 @@ fn jtoken_to_runtime_object(
             // // Legacy Tag
             if prop == "#" {
                 tok.expect('}')?;
-                return Ok(ArrayElement::RTObject(Rc::new(Tag::new(
-                    prop_value.as_str().unwrap(),
-                ))));
+                return Ok(ArrayElement::RTObject(Rc::new(Tag::new(expect_str(
+                    &prop_value,
+                    "#",
+                )?))));
             }
 
-            // List value
-            if prop == "list" {
+            // List value (a container named "list" has an array here)
+            if prop == "list" && matches!(prop_value, JsonValue::Object) {
                 let list_content = parse_list(tok)?;
                 let mut raw_list = InkList::new();
 
@@ -354,20 +389,8 @@ fn jtoken_to_runtime_object(
                     tok.expect(',')?;
                     tok.expect_obj_key("origins")?;
 
-                    // read array of strings
-                    tok.expect('[')?;
-
-                    let mut names = Vec::new();
-                    while tok.peek()? != ']' {
-                        let name = tok.read_string()?;
-                        names.push(name);
-
-                        if tok.peek()? != ']' {
-                            tok.expect(',')?;
-                        }
-                    }
-
-                    tok.expect(']')?;
+                    let origins = tok.read_value()?;
+                    let names = jarray_to_strings(tok, &origins, "origins", "an origin name")?;
 
                     raw_list.set_initial_origin_names(names);
                 }
@@ -385,8 +408,7 @@ fn jtoken_to_runtime_object(
 
             // Used when serialising save state only
             if prop == "originalChoicePath" {
-                todo!("originalChoicePath");
-                // return jobject_to_choice(obj); // TODO
+                return Ok(ArrayElement::RTObject(jobject_to_choice(tok, &prop_value)?));
             }
 
             // Last Element
@@ -399,25 +421,21 @@ fn jtoken_to_runtime_object(
 
             loop {
                 if p == "#f" {
-                    flags = pv.as_integer().unwrap();
+                    flags = expect_i32(&pv, "#f")?;
                 } else if p == "#n" {
-                    name = Some(pv.as_str().unwrap().to_string());
+                    name = Some(expect_str(&pv, "#n")?.to_string());
                 } else {
                     let named_content_item = jtoken_to_runtime_object(tok, pv, Some(p.clone()))?;
 
                     let named_content_item = match named_content_item {
                         ArrayElement::RTObject(rt_obj) => rt_obj,
-                        _ => {
-                            return Err(StoryError::BadJson(
-                                "Named content is not a runtime object".to_owned(),
-                            ));
-                        }
+                        _ => return Err(bad_json("named content (not a container)")),
                     };
 
                     let named_sub_container = named_content_item
                         .into_any()
                         .downcast::<Container>()
-                        .unwrap();
+                        .map_err(|_| bad_json("named content (not a container)"))?;
 
                     named_only_content.insert(p, named_sub_container);
                 }
@@ -447,12 +465,10 @@ fn parse_list(tok: &mut JsonTokenizer) -> Result<HashMap<String, i32>, StoryErro
 
     while tok.peek()? != '}' {
         let key = tok.read_obj_key()?;
-        let value = tok.read_number().unwrap().as_integer().unwrap();
+        let value = expect_i32(&tok.read_value()?, "a list item value")?;
         list_content.insert(key, value);
 
-        if tok.peek()? != '}' {
-            tok.expect(',')?;
-        }
+        tok.expect_comma_unless('}')?;
     }
 
     tok.expect('}')?;
@@ -494,8 +510,22 @@ fn jarray_to_runtime_obj_list(tok: &mut JsonTokenizer) -> RuntimeObjectListResul
     let mut list: RuntimeObjectList = Vec::new();
     let mut last_element: Option<ArrayElement> = None;
 
+    if tok.peek()? == ']' {
+        return Err(bad_json("a container (empty array)"));
+    }
+
     while tok.peek()? != ']' {
         let val = tok.read_value()?;
+        let is_array = matches!(val, JsonValue::Array);
+        let is_object = matches!(val, JsonValue::Object);
+
+        // Final object in the array is always a combination of named content
+        // and flags, or null. The serde based parser leaves out the final
+        // element without looking at it, whatever it is: do the same here.
+        if !is_array && !is_object && tok.peek()? == ']' {
+            break;
+        }
+
         let runtime_obj = jtoken_to_runtime_object(tok, val, None)?;
 
         match runtime_obj {
@@ -503,25 +533,100 @@ fn jarray_to_runtime_obj_list(tok: &mut JsonTokenizer) -> RuntimeObjectListResul
                 last_element = Some(ArrayElement::LastElement(flags, name, named_only_content));
                 break;
             }
-            ArrayElement::RTObject(rt_obj) => list.push(rt_obj),
+            ArrayElement::RTObject(rt_obj) => {
+                if tok.peek()? != ']' {
+                    list.push(rt_obj);
+                } else if is_object {
+                    // Not named content and flags
+                    return Err(bad_json("the final object of a container"));
+                }
+            }
             ArrayElement::NullElement => {
                 // Only the last element can be null
-                if tok.peek()? != ']' {
-                    return Err(StoryError::BadJson(
-                        "Only the last element can be null".to_owned(),
-                    ));
-                }
+                return Err(StoryError::BadJson(
+                    "Only the last element can be null".to_owned(),
+                ));
             }
         }
 
-        if tok.peek()? != ']' {
-            tok.expect(',')?;
-        }
+        tok.expect_comma_unless(']')?;
     }
 
     tok.expect(']')?;
 
     Ok((list, last_element))
+}
+
+/// Reads the rest of an array of strings, `value` being its opening.
+fn jarray_to_strings(
+    tok: &mut JsonTokenizer,
+    value: &JsonValue,
+    what: &str,
+    what_item: &str,
+) -> Result<Vec<String>, StoryError> {
+    if !matches!(value, JsonValue::Array) {
+        return Err(bad_json(what));
+    }
+
+    let mut strings = Vec::new();
+
+    while tok.peek()? != ']' {
+        strings.push(expect_str(&tok.read_value()?, what_item)?.to_string());
+
+        tok.expect_comma_unless(']')?;
+    }
+
+    tok.expect(']')?;
+
+    Ok(strings)
+}
+
+/// Reads the rest of a choice, after its "originalChoicePath".
+fn jobject_to_choice(
+    tok: &mut JsonTokenizer,
+    source_path: &JsonValue,
+) -> Result<Rc<dyn RTObject>, StoryError> {
+    let source_path = expect_str(source_path, "originalChoicePath")?;
+    let mut text: Option<String> = None;
+    let mut index: Option<usize> = None;
+    let mut original_thread_index: Option<usize> = None;
+    let mut path_string_on_choice: Option<String> = None;
+    let mut choice_tags: Vec<String> = Vec::new();
+    let mut is_invisible_default = false;
+
+    while tok.peek()? == ',' {
+        tok.expect(',')?;
+        let prop = tok.read_obj_key()?;
+        let prop_value = tok.read_value()?;
+
+        match prop.as_str() {
+            "text" => text = Some(expect_str(&prop_value, "text")?.to_string()),
+            "index" => index = Some(expect_usize(&prop_value, "index")?),
+            "originalThreadIndex" => {
+                original_thread_index = Some(expect_usize(&prop_value, "originalThreadIndex")?)
+            }
+            "targetPath" => {
+                path_string_on_choice = Some(expect_str(&prop_value, "targetPath")?.to_string())
+            }
+            "tags" => choice_tags = jarray_to_strings(tok, &prop_value, "tags", "a tag")?,
+            "isInvisibleDefault" => {
+                is_invisible_default = matches!(prop_value, JsonValue::Boolean(true))
+            }
+            _ => {}
+        }
+    }
+
+    tok.expect('}')?;
+
+    Ok(Rc::new(Choice::new_from_json(
+        &path_string_on_choice.ok_or_else(|| bad_json("targetPath"))?,
+        source_path.to_string(),
+        &text.ok_or_else(|| bad_json("text"))?,
+        index.ok_or_else(|| bad_json("index"))?,
+        original_thread_index.ok_or_else(|| bad_json("originalThreadIndex"))?,
+        choice_tags,
+        is_invisible_default,
+    )))
 }
 
 fn jtoken_to_list_definitions(
@@ -539,9 +644,7 @@ fn jtoken_to_list_definitions(
         let def = ListDefinition::new(name, items);
         all_defs.push(def);
 
-        if tok.peek()? != '}' {
-            tok.expect(',')?;
-        }
+        tok.expect_comma_unless('}')?;
     }
 
     tok.expect('}')?;
@@ -645,5 +748,160 @@ mod tests {
         let mut sb = String::new();
         container.build_string_of_hierarchy(&mut sb, 0, None);
         println!("{}", sb);
+    }
+
+    const IFFALSE: &str = r##"{"inkVersion":21,"root":[["ev",{"VAR?":"x"},0,">","/ev",[{"->":".^.b","c":true},{"b":["\n","ev",{"VAR?":"x"},1,"-","/ev",{"VAR=":"y","re":true},{"->":"0.6"},null]}],"nop","\n","^The value is ","ev",{"VAR?":"y"},"out","/ev","^. ","end","\n",["done",{"#n":"g-0"}],null],"done",{"global decl":["ev",0,{"VAR=":"x"},3,{"VAR=":"y"},"/ev","end",null]}],"listDefs":{"a":{"A":1}}}"##;
+
+    fn with_root(root: &str) -> String {
+        format!(r##"{{"inkVersion":21,"root":{root},"listDefs":{{}}}}"##)
+    }
+
+    fn is_bad_json(s: &str) -> bool {
+        matches!(load_from_string(s), Err(StoryError::BadJson(_)))
+    }
+
+    #[test]
+    fn truncated_document_is_an_error() {
+        for (i, _) in IFFALSE.char_indices() {
+            assert!(is_bad_json(&IFFALSE[..i]), "{}", &IFFALSE[..i]);
+        }
+        assert!(load_from_string(IFFALSE).is_ok());
+    }
+
+    #[test]
+    fn malformed_document_is_an_error() {
+        for s in [
+            "",
+            "-",
+            "tru",
+            "nul",
+            "[]",
+            "{}",
+            r##"{"inkVersion":"##,
+            r##"{"inkVersion":"21","root":["done",null],"listDefs":{}}"##,
+            r##"{"inkVersion":21.5,"root":["done",null],"listDefs":{}}"##,
+            r##"{"inkVersion":1e999,"root":["done",null],"listDefs":{}}"##,
+            r##"{"inkVersion":99999999999999999999,"root":["done",null],"listDefs":{}}"##,
+            r##"{"inkVersion":21 "root":["done",null],"listDefs":{}}"##,
+            r##"{"inkVersion":21,"root" ["done",null],"listDefs":{}}"##,
+            r##"{"inkVersion":21,"root":["done",null],"listDefs":5}"##,
+            r##"{"inkVersion":21,"root":["done",null],"listDefs":{"a":5}}"##,
+            r##"{"inkVersion":21,"root":["done",null],"listDefs":{"a":{"b":"c"}}}"##,
+            r##"{"inkVersion":21,"root":["done",null],"listDefs":{"a":{"b":1.5}}}"##,
+            r##"{"inkVersion":21,"root":["done",null],"listDefs":{"a":{"b":1,}}}"##,
+            r##"{"inkVersion":21,"root":[[],"done",null],"listDefs":5}"##,
+            r##"{"inkVersion":21,"root":["done",null],"listDefs":{}} x"##,
+            r##"{"inkVersion":21,"root":["done",null],"listDefs":{}}}"##,
+        ] {
+            assert!(is_bad_json(s), "{s}");
+        }
+
+        for root in [
+            "[]",
+            "null",
+            "5",
+            r##""done""##,
+            r##"{"#f":1}"##,
+            r##"[[],"done",null]"##,
+            r##"["","done",null]"##,
+            r##"["unknown","done",null]"##,
+            r##"[null,"done",null]"##,
+            r##"["done",null,]"##,
+            r##"["done",,null]"##,
+            r##"["done" null]"##,
+            r##"["done",nul]"##,
+            r##"["^unterminated,null]"##,
+            r##"["^bad \escape",null]"##,
+            r##"[2147483648,null]"##,
+            r##"[1e999,null]"##,
+            r##"[01,null]"##,
+            r##"[+1,null]"##,
+            r##"[.5,null]"##,
+            r##"[NaN,null]"##,
+            r##"[-,null]"##,
+            r##"[{"->":5},null]"##,
+            r##"[{"x()":"f","exArgs":-1},null]"##,
+            r##"[{"x()":"f","exArgs":"2"},null]"##,
+            r##"[{"^var":5},null]"##,
+            r##"[{"^var":"v","ci":1.5},null]"##,
+            r##"[{"^var":"v","ci":"0"},null]"##,
+            r##"[{"*":5},null]"##,
+            r##"[{"*":"c","flg":-1},null]"##,
+            r##"[{"*":"c","flg":1.5},null]"##,
+            r##"[{"VAR?":5},null]"##,
+            r##"[{"CNT?":null},null]"##,
+            r##"[{"VAR=":[]},null]"##,
+            r##"[{"temp=":true},null]"##,
+            r##"[{"#":1},null]"##,
+            r##"[{"list":5},null]"##,
+            r##"[{"list":{"a.b":"c"}},null]"##,
+            r##"[{"list":{},"origins":5},null]"##,
+            r##"[{"list":{},"origins":[5]},null]"##,
+            r##"[{"originalChoicePath":"p"},null]"##,
+            r##"[{"originalChoicePath":5,"text":"t","index":0,"originalThreadIndex":0,"targetPath":"p"},null]"##,
+            r##"[{"originalChoicePath":"p","text":"t","index":-1,"originalThreadIndex":0,"targetPath":"p"},null]"##,
+            r##"[{"originalChoicePath":"p","text":"t","index":0,"originalThreadIndex":0,"targetPath":"p","tags":[1]},null]"##,
+            r##"["done",{"->":"a"}]"##,
+            r##"["done",{"#f":"1"}]"##,
+            r##"["done",{"#f":1.5}]"##,
+            r##"["done",{"#n":1}]"##,
+            r##"["done",{"a":5}]"##,
+            r##"["done",{"a":null}]"##,
+            r##"["done",{"a":{"#f":1}}]"##,
+            r##"["done",{"a":["done",null],}]"##,
+            r##"["done",{"#f":1},null]"##,
+        ] {
+            assert!(is_bad_json(&with_root(root)), "{root}");
+        }
+    }
+
+    #[test]
+    fn deep_nesting_is_an_error() {
+        // As with serde_json, 127 levels (the top level object is the first one) are accepted
+        let nested =
+            |n: usize| with_root(&format!("{}\"done\",null{}", "[".repeat(n), "]".repeat(n)));
+        assert!(load_from_string(&nested(126)).is_ok());
+        assert!(is_bad_json(&nested(127)));
+
+        for bomb in [
+            "[",
+            r##"{"a":"##,
+            r##"[{"a":"##,
+            r##"{"list":"##,
+            r##"["^a","##,
+        ] {
+            assert!(is_bad_json(&with_root(&bomb.repeat(100_000))), "{bomb}");
+        }
+    }
+
+    #[test]
+    fn same_leniency_as_the_serde_based_parser() {
+        let content_len = |root: &str| load_from_string(&with_root(root)).unwrap().1.content.len();
+
+        // The final element of a container is left out, unless it is named content and flags
+        assert_eq!(content_len(r##"["^a","^b"]"##), 1);
+        assert_eq!(content_len(r##"["^a","^b",""]"##), 2);
+        assert_eq!(content_len(r##"["^a","^b",["done",null]]"##), 2);
+        assert_eq!(content_len(r##"["^a","^b",{}]"##), 2);
+        assert_eq!(content_len(r##"[null]"##), 0);
+        // Ignored members
+        assert_eq!(
+            content_len(r##"[{"->":"a","exArgs":"x","other":1},{"VAR=":"v","re":0},null]"##),
+            2
+        );
+        // Integers that are read as floats
+        assert_eq!(content_len(r##"[-0,99999999999999999999,null]"##), 2);
+        // A container named like the key of a list value
+        assert_eq!(
+            content_len(r##"["done",{"list":["done",null],"#f":1}]"##),
+            1
+        );
+        // A choice, as in a saved state
+        assert_eq!(
+            content_len(
+                r##"[{"originalChoicePath":"p","text":"t","index":0,"originalThreadIndex":0,"targetPath":"p","tags":["a"],"isInvisibleDefault":true},null]"##
+            ),
+            1
+        );
     }
 }
